@@ -194,7 +194,7 @@ func TestC07(t *testing.T) {
 		"Distinct by (validators, chain timestamps, vote timestamps, mutations)")
 	defer rec.Flush(t)
 
-	ev.Check(t, 150, 2500, func(rt *rapid.T) {
+	ev.Check(t, 150, 4000, func(rt *rapid.T) {
 		nv := rapid.IntRange(1, 7).Draw(rt, "nv")
 		H := rapid.IntRange(1, 5).Draw(rt, "heights")
 		verReq := 0
